@@ -102,6 +102,28 @@ def to_smt2(axioms, ob):
     return s.to_smt2()
 
 
+def rest_smt2(axioms, ob):
+    """The hypotheses OUTSIDE the goal's cone of influence (with their axioms), or None if there are none.  If the sliced query is
+    `sat`, the countermodel is genuine only if this independent remainder (the rest of the path condition) is satisfiable too."""
+    if ob.expect_sat:
+        return None
+    kept_a, kept_h = cone_of_influence(axioms, ob)
+    kept_ids = {h.get_id() for h in kept_h}
+    rest_h = [h for h in ob.hyps if h.get_id() not in kept_ids]
+    if not rest_h:
+        return None
+    s = z3.Solver()
+
+    class _O:
+        hyps, goal, expect_sat = rest_h, z3.BoolVal(True), True
+
+    for a in relevant_axioms(axioms, _O):
+        s.add(a)
+    for h in rest_h:
+        s.add(h)
+    return s.to_smt2()
+
+
 def to_smt2_full(axioms, ob):
     s = z3.Solver()
     for a in relevant_axioms(axioms, ob):
@@ -153,10 +175,20 @@ def _solve_cli(cmd, text, timeout_s):
 
 
 def _work(job):
-    idx, text, timeout_ms, expect_sat = job
+    idx, text, timeout_ms, expect_sat, rest_text, full_text = job
     t0 = time.time()
     verdict, info = _solve_z3(text, timeout_ms, True)
     solver = "z3-5.1(api)"
+    if verdict == "sat" and not expect_sat and rest_text is not None:
+        # the goal does not follow from the hypotheses in its cone of influence; is the rest of the path condition satisfiable?
+        rv, _ = _solve_z3(rest_text, min(timeout_ms, 5000), False)
+        if rv == "unsat":
+            return idx, "unsat", "(path condition outside the goal's cone of influence is contradictory: infeasible path)", solver, time.time() - t0
+        if rv != "sat":
+            fv, finfo = _solve_z3(full_text, timeout_ms, False)
+            if fv == "unsat":
+                return idx, "unsat", "", solver, time.time() - t0
+            verdict, info = "unknown", "sliced query sat, remainder/full query undecided"
     if verdict in ("unknown", "error") and not expect_sat:
         cv = "(set-logic ALL)\n" + text
         v2, i2 = _solve_cli(["/usr/bin/cvc5", "--strings-exp", f"--tlimit={timeout_ms}"], cv, timeout_ms / 1000)
@@ -186,7 +218,9 @@ def discharge(axioms, obls, timeout_ms=10000, procs=None):
         if not ob.expect_sat and z3.is_false(ob.goal) and not ob.hyps:
             results[i] = dict(id=ob.id, kind=ob.kind, verdict="refuted", solver="simplifier", seconds=0.0, note=ob.note, line=ob.line, model="(goal is literally False on an unconditional path)")
             continue
-        jobs.append((i, to_smt2(axioms, ob), min(timeout_ms, 3000) if ob.expect_sat else timeout_ms, ob.expect_sat))
+        rest = rest_smt2(axioms, ob)
+        jobs.append((i, to_smt2(axioms, ob), min(timeout_ms, 3000) if ob.expect_sat else timeout_ms, ob.expect_sat, rest,
+                     to_smt2_full(axioms, ob) if rest is not None else None))
     if jobs:
         procs = procs or min(16, max(1, len(jobs)))
         if len(jobs) <= 2 or procs == 1:
